@@ -14,7 +14,7 @@ from dataclasses import dataclass, field
 from datetime import timedelta
 from typing import Any
 
-from harness import vclock
+from harness import names, vclock
 from harness.brokers import Env, reset_globals
 
 RES = 0.001  # 1 ms: the resolution the properties are stated at
@@ -44,6 +44,7 @@ class M:
     maybe: set = field(default_factory=set)  # after a cancelled op: admissible model states {"pre","post"}
     pre: Any = None
     post: Any = None
+    seq0: int = 0  # sequence number at enqueue (never changes)
 
 
 @dataclass
@@ -68,7 +69,7 @@ class World:
         self.loop = loop
         self.case = case
         self.kind = case.get("broker", "mem")
-        reset_globals()
+        reset_globals(case.get("log"))
         self.env = Env(self.kind, loop, case.get("seed", 0))
         self.conns: dict[str, Any] = {}
         self.cons: list[Cons] = []
@@ -189,13 +190,13 @@ class World:
         q = op["q"]
         await self.declare(q, client)
         self.seq += 1
-        id_ = op.get("id") or f"m{self.seq}"
+        id_ = op.get("id") or names.auto_id(self.case.get("names"), self.seq)
         if id_ in self.msgs:
             return
         params, due, expiry = self.mk_params(op)
         key = RoutingKey(topic=op["topic"], queue=q, priority=op.get("prio", 5), id_=id_)
         payload = op.get("payload", "")
-        m = M(id_, q, op["topic"], op.get("prio", 5), payload, params, self.seq, due, expiry, enq_t=self.now)
+        m = M(id_, q, op["topic"], op.get("prio", 5), payload, params, self.seq, due, expiry, enq_t=self.now, seq0=self.seq)
         done, _ = await self.call(b.enqueue(key, payload, params), op.get("cancel_after"))
         ev["done"] = done
         ev["id"] = id_
